@@ -121,12 +121,17 @@ class Module:
         with open(path, encoding='utf-8') as fh:
             self.source = fh.read()
         self.tree = ast.parse(self.source, filename=path)
+        self.lines = self.source.splitlines()
+        if not defer:
+            self.shape1()
+            self.finish()
+
+    def shape1(self):
+        """first phase of the canonical model (structure, helper inlining); Repo calls it once the purity of the package's own
+        functions is known (computed on the parsed sources)"""
         if os.environ.get('GSCAN_NO_CANON') != '1':
             from .canon import shape
             self.tree = shape(self.tree, self.name)
-        self.lines = self.source.splitlines()
-        if not defer:
-            self.finish()
 
     def finish(self):
         """second phase (after Repo has computed which of the package's functions are pure): temporaries, index, parent links"""
@@ -180,6 +185,8 @@ class Repo:
             from . import canon
             canon.REPO_PURE_FUNCS, canon.REPO_PURE_METHODS = canon.purity([m.tree for m in self.modules.values()])
             self.pure_names = (sorted(canon.REPO_PURE_FUNCS), sorted(canon.REPO_PURE_METHODS))
+        for m in self.modules.values():
+            m.shape1()
         for m in self.modules.values():
             m.finish()
         self.class_index = {}
